@@ -1,4 +1,4 @@
-import GrpcProofs.Lemmas.LoopyC02
+import GrpcProofs.Lemmas.LoopyC02Trace
 /-!
 # C02  Outbound per-stream byte order, completeness and END_STREAM placement
 
@@ -57,6 +57,30 @@ theorem drained_complete (side : Side) (ops : List Op) (id : Nat) :
 leaves its domain on its own: no step of any history panics. -/
 theorem no_panic (side : Side) (ops : List Op) : Wf (final side ops) := wf_reachable side ops
 
+/-- Order, no loss, no duplication, END_STREAM placement, read off the wire: for every stream that is judged to the end of the
+history, the DATA frames (`wire id` = their `(offset, size, END_STREAM)` in wire order) carry consecutive byte ranges of the
+application byte stream starting at offset 0, and only the last of them may carry END_STREAM. -/
+theorem data_frames_consecutive (side : Side) (ops : List Op) (id : Nat)
+    (hw : ((runMon Mon.init (trace side ops)).1.str id).wild = false) : Seq 0 (wire id (trace side ops)) := by
+  have h := c02_holds side ops
+  simp only [holds, Option.isNone_iff_eq_none] at h
+  have := (runMon_exp h hw).2
+  simpa [Exp, Mon.init] using this
+
+/-- The same in bytes: whatever the content `c` of the stream's application byte stream (the concatenation of the 5-byte-prefixed
+messages the application wrote), the concatenated DATA payloads on the wire are exactly its first `total` bytes. -/
+theorem wire_bytes_are_prefix {α : Type} (c : List α) (side : Side) (ops : List Op) (id : Nat)
+    (hw : ((runMon Mon.init (trace side ops)).1.str id).wild = false) :
+    payload c (wire id (trace side ops)) = c.take (total (wire id (trace side ops))) := by
+  have := seq_payload c (data_frames_consecutive side ops id hw)
+  simpa using this
+
+/-- A stream carries END_STREAM at most once and only on its last DATA frame. -/
+theorem end_stream_once_and_last (side : Side) (ops : List Op) (id : Nat)
+    (hw : ((runMon Mon.init (trace side ops)).1.str id).wild = false) (a b : List (Nat × Nat × Bool)) (o n : Nat)
+    (h : wire id (trace side ops) = a ++ (o, n, true) :: b) : b = [] :=
+  seq_es_last (data_frames_consecutive side ops id hw) a b o n h
+
 /-! ### non-vacuity: the predicate is falsifiable -/
 
 /-- duplicated bytes -/
@@ -83,6 +107,12 @@ example : (trace .client [.register 1, .settings [(4, 20)] [], .data 1 5 10 fals
       .winUpdate 1 100, .tick 0]).map (·.2) =
     [[], [.settingsAck], [], [], [.cb .onEachWrite 1, .data 1 0 15 false], [.cb .onEachWrite 1, .data 1 15 5 false], [],
      [.cb .onEachWrite 1, .data 1 20 10 true]] := by
+  decide
+
+/-- … and that stream is judged to the end (the hypothesis of the three theorems above is satisfiable), with everything sent -/
+example : let m := (runMon Mon.init (trace .client [.register 1, .settings [(4, 20)] [], .data 1 5 10 false, .data 1 5 10 true,
+      .tick 0, .tick 0, .winUpdate 1 100, .tick 0])).1
+    (m.str 1).wild = false ∧ (m.str 1).sent = 30 ∧ (m.str 1).written = 30 ∧ (m.str 1).esSent = true := by
   decide
 
 end GrpcProofs.C02
